@@ -16,7 +16,7 @@ from ..run import Case
 from ..stubs import StubSet
 
 PID = "C05"
-POSITIONS = ["param", "ctor", "result", "cattr", "iattr"]
+POSITIONS = ["param", "ctor", "result", "cattr", "iattr", "param-among-others"]
 
 REACH = [
     "MyPyAstVisitor.mypy_type_to_abstract_type",
@@ -195,6 +195,11 @@ def build_case(cid: str, items: list, opts: list) -> Case:
         if pos == "param":
             name = f"p{i}"
             lines.append(f"def {name}(x: {src}) -> None: ...\n\n")
+        elif pos == "param-among-others":
+            # the same annotation between parameters of every other kind (what is decided for one parameter must not
+            # colour the next): position-only tuple, *args, keyword-only x, **kwargs
+            name = f"q{i}"
+            lines.append(f"def {name}(first: tuple[int, str], second: set[int] = None, /, *args: int, x: {src}, last: list[int, str] = None, **kwargs: str) -> None: ...\n\n")
         elif pos == "result":
             name = f"r{i}"
             lines.append(f"def {name}() -> {src}: ...\n\n")
@@ -278,7 +283,10 @@ def make_judge(chk: Check):
                 if term[0] != "tuple" and len(got) == 1:
                     got_nfs = got[0]
             else:
-                if pos in ("param", "ctor"):
+                if pos == "param-among-others":
+                    ps = [p for p in d.params or [] if p.pyname == "x"]
+                    st = ps[0].type if len(ps) == 1 else None
+                elif pos in ("param", "ctor"):
                     ps = d.params or []
                     st = ps[0].type if len(ps) == 1 else None
                 else:
